@@ -266,7 +266,7 @@ def t_exactly_one_dot_naive : Prop :=
 
 theorem t_exactly_one_dot_naive_false : ¬ t_exactly_one_dot_naive := by
   intro h
-  have := (h ⟨0, fun _ => false⟩ {} [97, 46]).mpr (by decide)
+  have := (h ⟨0, []⟩ {} [97, 46]).mpr (by decide)
   revert this; decide
 
 /-! ## `TEST(group, name)` / `IGNORE_TEST(group, name)` -/
@@ -334,9 +334,12 @@ theorem reject_stops (env : Env) (c c' : Config) (a : Bytes) (k : Bool) (rest re
   rw [go_cons_reject env c c' a rest k h, go_cons_reject env c c' a rest' k (h' ▸ h)]
 
 /-- A rejected vector prints help (iff `-h` was seen) or usage, creates only the console output,
-    makes no call to the registry, runs no test and returns 1. -/
+    makes no call to the registry besides installing and removing the `SetPointerPlugin`, runs no
+    test and returns 1. -/
 theorem runner_reject_runs_nothing (ps : List ProbeTest) (c : Config) :
-    (runner ps (.reject c)).ran = [] ∧ (runner ps (.reject c)).calls = [] ∧ (runner ps (.reject c)).rc = 1 ∧
+    (runner ps (.reject c)).ran = [] ∧
+    (runner ps (.reject c)).calls = [.install nameSetPointer, .remove nameSetPointer] ∧
+    (runner ps (.reject c)).rc = 1 ∧
     (runner ps (.reject c)).printed = (if c.needHelp then .help else .usage) := by
   simp [runner]
 
@@ -378,6 +381,280 @@ theorem runner_list_runs_nothing (ps : List ProbeTest) (c : Config)
     (runner ps (.ok c)).ran = [] ∧ (runner ps (.ok c)).rc = 0 := by
   rcases h with h | h | h <;> simp [runner, h]
 
+/-! ## the help and usage texts list exactly the options -/
+
+def Flag.all : List Flag := [.v, .vv, .c, .p, .b, .ri, .f, .e, .ci, .lg, .ln, .ll]
+def FKind.all : List FKind := [.sub, .strict, .excl, .exclStrict]
+def OutKind.all : List OutKind := [.normal, .eclipse, .junit, .teamcity]
+
+/-- how an option is spelled in the documentation: its literal (for `-o`: with the kind) -/
+def Opt.spelling : Opt → Bytes
+  | .flag fl => fl.lit
+  | .repeatDefault => [45, 114]
+  | .repeatN _ => [45, 114]
+  | .shuffle => [45, 115]
+  | .shuffleSeed _ => [45, 115]
+  | .group k _ => k.lit 103
+  | .name k _ => k.lit 110
+  | .test k _ _ => k.lit 116
+  | .testForm i _ _ => testPrefix i
+  | .output o => [45, 111] ++ o.lit
+  | .package _ => [45, 107]
+
+/-- every spelling an `Opt` can have -/
+def optNames : List Bytes :=
+  Flag.all.map Flag.lit ++ [[45, 114], [45, 115]] ++ FKind.all.map (·.lit 103) ++ FKind.all.map (·.lit 110) ++
+  FKind.all.map (·.lit 116) ++ [testPrefix false, testPrefix true] ++ OutKind.all.map (fun o => [45, 111] ++ o.lit) ++ [[45, 107]]
+
+/-- `optNames` really is every option of the datatype -/
+theorem optNames_complete (o : Opt) : o.spelling ∈ optNames := by
+  cases o with
+  | flag fl => cases fl <;> decide
+  | group k v => cases k <;> (simp only [Opt.spelling]; decide)
+  | name k v => cases k <;> (simp only [Opt.spelling]; decide)
+  | test k g n => cases k <;> (simp only [Opt.spelling]; decide)
+  | testForm i g n => cases i <;> (simp only [Opt.spelling]; decide)
+  | output o => cases o <;> decide
+  | repeatDefault => decide
+  | repeatN n => simp only [Opt.spelling]; decide
+  | shuffle => decide
+  | shuffleSeed s => simp only [Opt.spelling]; decide
+  | package v => simp only [Opt.spelling]; decide
+
+/-- the attached rendering of an option starts with the documented spelling -/
+theorem render_starts_with_name (o : Opt) : ∃ a, render1 (o, .attached) = [a] ∧ startsWith a o.spelling = true := by
+  cases o with
+  | flag fl => exact ⟨_, rfl, by cases fl <;> decide⟩
+  | group k v => exact ⟨_, rfl, by simp [startsWith, Opt.spelling]⟩
+  | name k v => exact ⟨_, rfl, by simp [startsWith, Opt.spelling]⟩
+  | test k g n => exact ⟨_, rfl, by simp [startsWith, Opt.spelling]⟩
+  | testForm i g n => exact ⟨_, rfl, by simp [startsWith, Opt.spelling, List.append_assoc]⟩
+  | output o => exact ⟨_, rfl, by simp [startsWith, Opt.spelling]⟩
+  | repeatDefault => exact ⟨_, rfl, by decide⟩
+  | repeatN n => exact ⟨_, rfl, by simp [startsWith, Opt.spelling]⟩
+  | shuffle => exact ⟨_, rfl, by decide⟩
+  | shuffleSeed s => exact ⟨_, rfl, by simp [startsWith, Opt.spelling]⟩
+  | package v => exact ⟨_, rfl, by simp [startsWith, Opt.spelling]⟩
+
+def litHelp : Bytes := [45, 104]   -- -h
+def litRunIgnored : Bytes := [45, 114, 105]   -- -ri
+
+/-- **usage() mentions every option** of the `Opt` datatype … -/
+theorem usage_mentions_every_option : ∀ n ∈ optNames, n ∈ Gen.ParseDispatch.usageEntries := by decide
+
+/-- … and nothing else (besides `-h`). -/
+theorem usage_mentions_only_options : ∀ t ∈ Gen.ParseDispatch.usageEntries, t ∈ optNames ∨ t = litHelp := by decide
+
+/-- help() mentions nothing but options of the datatype (and `-h`) -/
+theorem help_mentions_only_options : ∀ t ∈ Gen.ParseDispatch.helpEntries, t ∈ optNames ∨ t = litHelp := by decide
+
+/-- FULL statement: help() mentions every option.  It is FALSE on the unchanged tree: `-ri` (run
+    ignored tests) is dispatched and listed in usage() but has no line in help(). -/
+def help_mentions_every_option_full : Prop := ∀ n ∈ optNames, n ∈ Gen.ParseDispatch.helpEntries
+
+theorem help_mentions_every_option_fails_known : ¬ help_mentions_every_option_full := by
+  intro h; exact absurd (h litRunIgnored (by decide)) (by decide)
+
+/-- what holds: every option except `-ri` has its line in help() -/
+theorem help_mentions_every_option_partial :
+    ∀ n ∈ optNames, n ∈ Gen.ParseDispatch.helpEntries ∨ n = litRunIgnored := by decide
+
+/-- a documented spelling is matched by some branch of the (regenerated) chain of `parse` -/
+def genDispatches (t : Bytes) : Bool :=
+  Gen.ParseDispatch.table.any fun e => if e.exact then t == e.lit else e.lit.isPrefixOf t
+
+/-- **every option mentioned in help() or usage() is dispatched** (removing a branch without
+    removing its documentation breaks this) -/
+theorem documented_options_dispatched :
+    ∀ t ∈ Gen.ParseDispatch.helpEntries ++ Gen.ParseDispatch.usageEntries, genDispatches t = true := by decide
+
+/-- **every branch of the chain is mentioned in usage()** — `-o` through its four kinds (adding a
+    branch without documenting it breaks this) -/
+theorem dispatched_options_documented :
+    ∀ e ∈ Gen.ParseDispatch.table,
+      Gen.ParseDispatch.usageEntries.any (fun t => t == e.lit || (e.lit == [45, 111] && e.lit.isPrefixOf t)) = true := by
+  decide
+
+/-- the same for help(), where only `-ri` is missing -/
+theorem dispatched_options_in_help :
+    ∀ e ∈ Gen.ParseDispatch.table, e.lit = litRunIgnored ∨
+      Gen.ParseDispatch.helpEntries.any (fun t => t == e.lit || (e.lit == [45, 111] && e.lit.isPrefixOf t)) = true := by
+  decide
+
+/-! ## `-p<x>`: the plugin chain (`TestPlugin::parseAllArguments`) -/
+
+/-- the chain's answer: some plugin accepts -/
+theorem chain_accepts_iff_any : ∀ (ps : List (Bytes → Bool)) (a : Bytes), chainAnswer ps a = ps.any (· a)
+  | [], _ => rfl
+  | p :: ps, a => by
+    simp only [chainAnswer, List.any_cons, chain_accepts_iff_any ps a]
+    cases p a <;> simp
+
+/-- the first plugin that accepts wins: the plugins before it are asked and say no, it is asked,
+    and the plugins behind it are never asked -/
+theorem chain_first_accepting_wins (pre post : List (Bytes → Bool)) (p : Bytes → Bool) (a : Bytes)
+    (hpre : ∀ q ∈ pre, q a = false) (hp : p a = true) :
+    chainAnswer (pre ++ p :: post) a = true ∧ chainAsked (pre ++ p :: post) a = pre.length + 1 := by
+  induction pre with
+  | nil => simp [chainAnswer, chainAsked, hp]
+  | cons q qs ih =>
+    have hq : q a = false := hpre q (by simp)
+    have := ih (fun r hr => hpre r (List.mem_cons_of_mem _ hr))
+    simp [chainAnswer, chainAsked, hq, this]; omega
+
+/-- if nobody accepts, everybody is asked and the argument is refused -/
+theorem chain_all_refuse (ps : List (Bytes → Bool)) (a : Bytes) (h : ∀ q ∈ ps, q a = false) :
+    chainAnswer ps a = false ∧ chainAsked ps a = ps.length := by
+  induction ps with
+  | nil => simp [chainAnswer, chainAsked]
+  | cons q qs ih =>
+    have hq : q a = false := h q (by simp)
+    have := ih (fun r hr => h r (List.mem_cons_of_mem _ hr))
+    simp [chainAnswer, chainAsked, hq, this]; omega
+
+/-- the model's default answer is the source's inline `TestPlugin::parseArguments` … -/
+theorem default_parseArguments_eq_source (a : Bytes) :
+    defaultParseArguments a = Gen.ParseDispatch.defaultParseArgumentsReturns := by
+  show false = Gen.ParseDispatch.defaultParseArgumentsReturns; decide
+
+/-- … and `MemoryReporterPlugin` is the only class in the tree that overrides it (so
+    `SetPointerPlugin`, `MemoryLeakWarningPlugin`, `MockSupportPlugin` answer with the default) -/
+theorem only_memory_reporter_overrides :
+    Gen.ParseDispatch.classesOverridingParseArguments = ["MemoryReporterPlugin"] := by decide
+
+/-- With only default plugins in the chain — what `RunAllTests(ac, av)` installs itself
+    (`MemoryLeakWarningPlugin`, `SetPointerPlugin`), plus any number of `MockSupportPlugin`s — every
+    `-p<x>` argument is refused (usage is printed). -/
+theorem default_plugins_refuse (env : Env) (c : Config) (x : UInt8) (t : Bytes) (rest : List Bytes)
+    (h : ∀ q ∈ env.plugins, q = defaultParseArguments) :
+    go env c false ((45 :: 112 :: x :: t) :: rest) = .reject c := by
+  have hs : step env c (45 :: 112 :: x :: t) rest.head? = ⟨c, env.plugin (45 :: 112 :: x :: t), false⟩ := rfl
+  have hp : env.plugin (45 :: 112 :: x :: t) = false :=
+    (chain_all_refuse env.plugins _ (fun q hq => by rw [h q hq]; rfl)).1
+  rw [hp] at hs
+  exact go_cons_reject env c c _ rest false hs
+
+/-- `-pmemoryreport=<anything>` is accepted by a chain that contains the `MemoryReporterPlugin` -/
+theorem memory_reporter_accepts (ps : List (Bytes → Bool)) (t : Bytes) (h : memoryReporterParseArguments ∈ ps) :
+    chainAnswer ps (litMemoryReport ++ t) = true := by
+  rw [chain_accepts_iff_any]
+  apply List.any_eq_true.mpr
+  refine ⟨_, h, ?_⟩
+  simp [memoryReporterParseArguments, litMemoryReport, isInfix]
+
+/-- installing `SetPointerPlugin` (and `MemoryLeakWarningPlugin`) in front changes no answer -/
+theorem runner_chains_answer_alike (ps : List (Bytes → Bool)) (a : Bytes) :
+    chainAnswer (runnerChain ps) a = chainAnswer ps a ∧ chainAnswer (runAllTestsChain ps) a = chainAnswer ps a := by
+  simp [runnerChain, runAllTestsChain, chainAnswer, defaultParseArguments]
+
+/-! ## `CommandLineTestRunner::RunAllTests(ac, av)` -/
+
+/-- the plugin names are the source's macros -/
+theorem plugin_names_eq_source :
+    nameMemLeak = Gen.ParseDispatch.pluginNameMemLeak ∧ nameSetPointer = Gen.ParseDispatch.pluginNameSetPointer := by
+  decide
+
+/-- The two plugins are installed before anything else happens and removed again whatever the
+    outcome (also for `-h` and for rejected vectors): the registry ends with the plugins it had. -/
+theorem runAllTests_restores_plugins (ps : List ProbeTest) (reg : List String) (r : ParseResult)
+    (h1 : nameMemLeak ∉ reg) (h2 : nameSetPointer ∉ reg) :
+    (runAllTestsGlue ps reg r).pluginsAfter = reg := by
+  have hne : (nameMemLeak != nameSetPointer) = true := by decide
+  have f1 : ∀ l : List String, nameSetPointer ∉ l → removePlugin nameSetPointer l = l := by
+    intro l hl; simp only [removePlugin]; apply List.filter_eq_self.mpr
+    intro x hx; simp only [bne_iff_ne, ne_eq]; intro e; exact hl (e ▸ hx)
+  have f2 : ∀ l : List String, nameMemLeak ∉ l → removePlugin nameMemLeak l = l := by
+    intro l hl; simp only [removePlugin]; apply List.filter_eq_self.mpr
+    intro x hx; simp only [bne_iff_ne, ne_eq]; intro e; exact hl (e ▸ hx)
+  simp only [runAllTestsGlue, pluginsDuring]
+  have e1 : removePlugin nameSetPointer (nameSetPointer :: nameMemLeak :: reg) = nameMemLeak :: reg := by
+    have := f1 reg h2
+    simp only [removePlugin] at this ⊢
+    simp [hne, this]
+  rw [e1]
+  have := f2 reg h1
+  simp only [removePlugin] at this ⊢
+  simp [this]
+
+/-- the calls to the registry are bracketed: leak plugin in, pointer plugin in, …, pointer plugin out,
+    leak plugin out -/
+theorem runAllTests_brackets_run (ps : List ProbeTest) (reg : List String) (r : ParseResult) :
+    ∃ mid, (runAllTestsGlue ps reg r).calls =
+      [.install nameMemLeak, .install nameSetPointer] ++ mid ++ [.remove nameSetPointer, .remove nameMemLeak] := by
+  cases r with
+  | reject c => exact ⟨[], by simp [runAllTestsGlue, runner]⟩
+  | ok c =>
+    exact ⟨initCalls c ++
+      (if c.listGroups then [.listGroups] else if c.listNames then [.listNames]
+       else if c.listLocations then [.listLocations]
+       else (if c.reversing then [.reverse] else []) ++ loopCalls c c.repeatCount),
+      by simp [runAllTestsGlue, runner, List.append_assoc]⟩
+
+/-- `-h` (any rejected vector) returns 1 without running: no registry call between the
+    brackets, no test body, help iff help was asked for -/
+theorem runAllTests_reject_runs_nothing (ps : List ProbeTest) (reg : List String) (c : Config) :
+    (runAllTestsGlue ps reg (.reject c)).rc = 1 ∧ (runAllTestsGlue ps reg (.reject c)).run.ran = [] ∧
+    (runAllTestsGlue ps reg (.reject c)).calls =
+      [.install nameMemLeak, .install nameSetPointer, .remove nameSetPointer, .remove nameMemLeak] ∧
+    (runAllTestsGlue ps reg (.reject c)).run.printed = (if c.needHelp then .help else .usage) := by
+  simp [runAllTestsGlue, runner]
+
+/-- return value for an accepted vector (no test of the registry fails): 0 in a list mode or when
+    at least one test is selected; otherwise every repetition counts as a failed execution -/
+theorem runAllTests_rc (ps : List ProbeTest) (reg : List String) (c : Config) :
+    (runAllTestsGlue ps reg (.ok c)).rc =
+      if c.listGroups || c.listNames || c.listLocations then 0
+      else if (passing c ps).isEmpty then c.repeatCount else 0 := by
+  simp [runAllTestsGlue, runner]
+
+/-! ## value options at the end of the vector, or followed by an empty argument -/
+
+/-- every option that wants a value, given as the very LAST argument (`getParameterField`
+    returns `""`): filters get the empty text, `-t…` and `-o` are refused, `-k` changes nothing,
+    `-r` repeats twice, `-s` takes the clock, `TEST(` gives two empty strict filters -/
+theorem value_missing_at_end_all (env : Env) (c : Config) :
+    (∀ k : FKind, go env c false [k.lit 103] = .ok { c with groupFilters := k.filter [] :: c.groupFilters }) ∧
+    (∀ k : FKind, go env c false [k.lit 110] = .ok { c with nameFilters := k.filter [] :: c.nameFilters }) ∧
+    (∀ k : FKind, go env c false [k.lit 116] = .reject c) ∧
+    go env c false [[45, 111]] = .reject c ∧
+    go env c false [[45, 107]] = .ok c ∧
+    go env c false [[45, 114]] = .ok { c with repeatCount := 2 } ∧
+    go env c false [[45, 115]] = .ok { c with shuffling := true, shuffleSeed := timeSeed env.time } ∧
+    (∀ i : Bool, go env c false [testPrefix i] =
+      .ok { c with groupFilters := ⟨[], true, false⟩ :: c.groupFilters, nameFilters := ⟨[], true, false⟩ :: c.nameFilters }) := by
+  refine ⟨fun k => by cases k <;> rfl, fun k => by cases k <;> rfl, fun k => by cases k <;> rfl, rfl, rfl, rfl, ?_,
+    fun i => by cases i <;> rfl⟩
+  exact (go_one env c _ _ [] (step_shuffleDefault env c none (by intro a h; cases h)))
+
+/-- the same options followed by an EMPTY argument (`prog -g ""`): the empty string is taken as
+    the value (and consumed) by the filters, `-k`, `TEST(`; `-t… ""` and `-o ""` are refused; for `-r`
+    and `-s` the empty string is no number, is not consumed, and is then refused as an unknown
+    argument -/
+theorem value_empty_argument (env : Env) (c : Config) (rest : List Bytes) :
+    (∀ k : FKind, go env c false (k.lit 103 :: [] :: rest) =
+        go env { c with groupFilters := k.filter [] :: c.groupFilters } false rest) ∧
+    (∀ k : FKind, go env c false (k.lit 110 :: [] :: rest) =
+        go env { c with nameFilters := k.filter [] :: c.nameFilters } false rest) ∧
+    (∀ k : FKind, go env c false (k.lit 116 :: [] :: rest) = .reject c) ∧
+    go env c false ([45, 111] :: [] :: rest) = .reject c ∧
+    go env c false ([45, 107] :: [] :: rest) = go env c false rest ∧
+    go env c false ([45, 114] :: [] :: rest) = .reject { c with repeatCount := 2 } ∧
+    go env c false ([45, 115] :: [] :: rest) = .reject { c with shuffling := true, shuffleSeed := timeSeed env.time } ∧
+    (∀ i : Bool, go env c false (testPrefix i :: [] :: rest) =
+      go env { c with groupFilters := ⟨[], true, false⟩ :: c.groupFilters,
+                      nameFilters := ⟨[], true, false⟩ :: c.nameFilters } false rest) := by
+  refine ⟨fun k => ?_, fun k => ?_, fun k => ?_, ?_, ?_, ?_, ?_, fun i => ?_⟩
+  · exact go_two env c _ _ [] rest (step_group_separated env c k [])
+  · exact go_two env c _ _ [] rest (step_name_separated env c k [])
+  · exact t_no_dot_rejects env c k [] rest (by simp)
+  · exact go_cons_reject env c c _ _ true (by rfl)
+  · exact go_two env c c _ [] rest (by rfl)
+  · rw [go_one env c _ _ ([] :: rest) (step_repeatDefault env c _ (by intro a h; simp at h; subst h; rfl))]
+    exact go_cons_reject env _ _ _ rest false (step_unknown env _ [] _ dispatch_nil)
+  · rw [go_one env c _ _ ([] :: rest) (step_shuffleDefault env c _ (by intro a h; simp at h; subst h; rfl))]
+    exact go_cons_reject env _ _ _ rest false (step_unknown env _ [] _ dispatch_nil)
+  · cases i <;> exact go_two env c _ _ [] rest (by rfl)
+
 /-! ## the four filter kinds mean what the help text says -/
 
 /-- `-g`, `-n`: contains; `-sg`, `-sn`: exactly matches; `-xg`, `-xn`: excluded if it contains;
@@ -396,7 +673,7 @@ def idOne : Ident := ⟨[111, 110, 101], by decide⟩                -- one
 def idPkg : Ident := ⟨[112, 107, 103], by decide⟩                -- pkg
 def count3 : Count := ⟨[51], by decide, by decide, by decide⟩    -- 3
 def seed42 : Seed := ⟨[52, 50], by decide, by decide, by decide⟩ -- 42
-def env0 : Env := ⟨1000, fun _ => false⟩
+def env0 : Env := ⟨1000, []⟩
 
 /-- `prog -v -r 3 -sgAlpha -xn one -t Alpha.one "TEST(Alpha, one)" -s42 -ojunit -k pkg -b`:
     a non-trivial instance of `parse_render` (both forms, every value kind) -/
